@@ -292,7 +292,7 @@ func (it *Interp) preciseExternal(s *State, fr *Frame, call *ssa.Call, name stri
 			rv = iv.Val
 		}
 		cell, kind := it.preciseKindOf(rv)
-		if kind != "reader" {
+		if kind != "reader" && kind != "reader1" {
 			return nil, false
 		}
 		_ = ri
@@ -309,6 +309,9 @@ func (it *Interp) preciseExternal(s *State, fr *Frame, call *ssa.Call, name stri
 		if avail < n {
 			n = avail
 		}
+		if kind == "reader1" && name != "io.ReadFull" && n > 1 {
+			n = 1 // a reader may deliver fewer bytes than asked for: this one delivers one at a time
+		}
 		if n > 0 {
 			d := dst
 			d.Hi = d.Lo + n
@@ -318,7 +321,7 @@ func (it *Interp) preciseExternal(s *State, fr *Frame, call *ssa.Call, name stri
 		}
 		s.heap[cell] = StructV{Fields: []AV{obj.Fields[0], intOf(off.V + int64(n))}}
 		var err AV = IfaceV{Nil: true}
-		if n < want && (name == "io.ReadFull" || n == 0) && want > 0 {
+		if n < want && (name == "io.ReadFull" || n == 0) && want > 0 && (kind != "reader1" || avail < want) {
 			err = nonNilError() // io.EOF / io.ErrUnexpectedEOF
 		}
 		return TupleV{Vals: []AV{intOf(int64(n)), err}}, true
@@ -345,7 +348,6 @@ func (it *Interp) preciseInvoke(s *State, fr *Frame, call *ssa.Call, recv IfaceV
 	}
 	return nil, false
 }
-
 
 // hexText: the lower-case hex text of a byte sequence (unknown bytes become
 // pairs of abstract hex digits).
